@@ -414,7 +414,7 @@ Proof. vm_compute. repeat split. Qed.
    [cfg_of (first (applied s i) entries of its log)]: membership changes take effect
    when applied, as in dragonboat; the two guards of the code are steps guards
    (no campaign while committed > applied; at most one unapplied config change in a
-   leader's log).  [cfg_of] / [is_cc] are parameters; every theorem holds for every pair
+   leader's log).  [cfg_of] / [is_cc] are arguments; every theorem holds for every pair
    that meets [cfg_contract]:
      an entry that is no config change does not change cfg_of,
      quorums of cfg_of l and cfg_of (l ++ [e]) intersect,
